@@ -9,6 +9,7 @@ import (
 	"testing"
 	"time"
 
+	"github.com/samaritan-proxy/samaritan/host"
 	"github.com/samaritan-proxy/samaritan/utils/verifpoint"
 	"pgregory.net/rapid"
 
@@ -30,6 +31,10 @@ type redirCase struct {
 	StopAfter  int  `json:"stop_after_us"`         // Stop is called this long after the point was hit (microseconds)
 	SlowAccept bool `json:"slow_accept,omitempty"` // the new node's accept queue is full: the connect completes only on a SYN retransmit (~1 s)
 	NoHook     bool `json:"no_hook,omitempty"`     // no pause point: Stop is called StopAfter after the requests were written
+	// Before: a host-set update delivered right before Stop, while the redirected request is on its way: "remove" (the node that
+	// answered the redirection is removed), "replace-target" (all hosts replaced by the new node), "replace-same" (replaced by an equal list)
+	Before      string `json:"before,omitempty"`
+	BeforeGapUs int    `json:"before_gap_us,omitempty"` // Stop follows the return of the update call this much later
 }
 
 func checkRedirectStop(c redirCase) (nt bool, v *verdict) {
@@ -96,10 +101,34 @@ func checkRedirectStop(c redirCase) (nt bool, v *verdict) {
 
 	stopReturned := make(chan struct{})
 	var once sync.Once
+	// The controller delivers host updates and Stop from one goroutine, one after the other: Stop is only called after the
+	// update has returned. An update that does not return within the deadline has the controller's loop stuck; Stop is then
+	// called all the same, and only a Stop that does not return either is a verdict.
+	updateHung := false
 	doStop := func() {
 		once.Do(func() {
 			stopped = true // never a second Stop, whatever becomes of this one
 			go func() {
+				if c.Before != "" {
+					updateReturned := make(chan struct{})
+					go func() {
+						switch c.Before {
+						case "remove":
+							px.P.OnSvcHostRemove([]*host.Host{host.New(w.Nodes[0].Addr)})
+						case "replace-target":
+							px.P.OnSvcAllHostReplace([]*host.Host{host.New(target)})
+						default:
+							px.P.OnSvcAllHostReplace([]*host.Host{host.New(w.Nodes[0].Addr)})
+						}
+						close(updateReturned)
+					}()
+					select {
+					case <-updateReturned:
+					case <-time.After(stopDeadline):
+						updateHung = true
+					}
+					time.Sleep(time.Duration(c.BeforeGapUs) * time.Microsecond)
+				}
 				px.P.Stop()
 				close(stopReturned)
 			}()
@@ -150,12 +179,16 @@ func checkRedirectStop(c redirCase) (nt bool, v *verdict) {
 	}
 	select {
 	case <-stopReturned:
-	case <-time.After(stopDeadline):
+	case <-time.After(stopDeadline + map[bool]time.Duration{true: stopDeadline + time.Second}[c.Before != ""]):
 		d1 := vh.Stacks()
 		time.Sleep(time.Second)
 		_, where := procGoroutines()
 		_ = d1
-		return nt, &verdict{"stop-never-returns", fmt.Sprintf("Stop called while a redirected request was on its way to a node without a connection did not return within %v; service goroutines still parked:\n%s", stopDeadline, where)}
+		extra := ""
+		if updateHung {
+			extra = fmt.Sprintf(" (the host update %q delivered before it had not returned after %v either)", c.Before, stopDeadline)
+		}
+		return nt, &verdict{"stop-never-returns", fmt.Sprintf("Stop called while a redirected request was on its way to a node without a connection did not return within %v%s; service goroutines still parked:\n%s", stopDeadline, extra, where)}
 	}
 	px.Release()
 	for i, cl := range clients {
@@ -194,6 +227,10 @@ func TestStopDuringRedirect(t *testing.T) {
 			Conns:     rapid.IntRange(1, 3).Draw(t, "conns"),
 			HoldMs:    rapid.SampledFrom([]int{0, 1, 5, 20, 60}).Draw(t, "hold"),
 			StopAfter: rapid.SampledFrom([]int{0, 50, 300, 2000}).Draw(t, "stopafter"),
+			Before:    rapid.SampledFrom([]string{"", "", "remove", "remove", "replace-target", "replace-same"}).Draw(t, "before"),
+		}
+		if c.Before != "" {
+			c.BeforeGapUs = rapid.SampledFrom([]int{0, 100, 1000, 20000}).Draw(t, "beforegap")
 		}
 		switch rapid.IntRange(0, 5).Draw(t, "mode") {
 		case 0:
@@ -212,6 +249,9 @@ func TestStopDuringRedirect(t *testing.T) {
 		vh.Rec().Case("redirect", nt, vh.JSON(c))
 		if c.SlowAccept {
 			vh.Rec().Class("redirect", "connect_pending_during_stop")
+		}
+		if c.Before != "" {
+			vh.Rec().Class("redirect", "host_update_"+c.Before+"_right_before_stop")
 		}
 		vh.Rec().Sample("redirect", nt, func() interface{} { return c })
 	})
